@@ -353,8 +353,13 @@ def generate(seed, tier):
     class G(spec.TermGen):
         def const(self, kind=None, value=None):
             kind = kind or self.rng.choice(self.const_kinds)
-            if kind == "fx":   # floats that never equal an int
-                return ["f", repr(self.rng.choice([0.5, 2.5, 1.25]))]
+            if kind == "fx":   # floats / numpy scalars whose values no other kind uses
+                x = self.rng.random()
+                if x < 0.6:
+                    return ["f", repr(self.rng.choice([0.5, 2.5, 1.25]))]
+                if x < 0.8:
+                    return ["np", "int64", repr(self.rng.choice([9, 11]))]
+                return ["np", "float64", repr(self.rng.choice([6.5, 8.25]))]
             if kind == "b":
                 return ["b", bool(self.rng.choice([0, 1]))] if mode != "nv" else ["b", True]
             return super().const(kind, value)
@@ -380,6 +385,7 @@ def generate(seed, tier):
           idents=["x", "y", "z", "xa"], p_ref=0.3, p_fresh=0.2,
           leaf_classes=("Variable", "Variable", "Variable", "SubVar"), **ck)
     g.extra_fields = {"SubVar": ["s"]}
+    g.allow_short = profile == "broad"
     for k in range(npool):
         name = f"e{k}"
         ops.append(["def", name, g.term(0)])
